@@ -32,26 +32,47 @@ Theorem C14_step_refines : forall f o,
 Proof. exact step_from_table. Qed.
 Print Assumptions C14_step_refines.
 
-(* the invariant holds for the files of the Reader and of the constructors (every batch
-   comes from NewBatch) and is kept by AddBatch(NewBatch ...) and by every operation *)
-Theorem C14_inv_built_partial : forall secs, inv (built secs) = true.
-Proof. exact inv_built. Qed.
-Print Assumptions C14_inv_built_partial.
+(* the property: for every history over the operations the observation is unchanged, on
+   every file that has no nil header / control up to and including its first ADV batch *)
+Theorem C14_history : forall ops f, prefix_inv f = true -> observe (fold_left step ops f) = observe f.
+Proof. exact history_prefix. Qed.
+Print Assumptions C14_history.
 
-Theorem C14_inv_add_batch : forall f sec, inv f = true -> inv (f ++ (new_batch sec :: nil))%list = true.
-Proof. exact inv_add_batch. Qed.
+Theorem C14_condition_kept : forall f o, prefix_inv f = true -> prefix_inv (step f o) = true.
+Proof. exact prefix_inv_step. Qed.
+
+(* ... which holds for what Reader.Read returns and for what File.Create leaves behind
+   (both end with IsADV), ADV files included; the model of the two constructions is only
+   "every batch comes from NewBatch, then IsADV runs" (partial: checked against the real
+   Reader and generators by the oracle) *)
+Theorem C14_reader_condition_partial : forall secs, prefix_inv (reader_file secs) = true.
+Proof. exact prefix_inv_reader. Qed.
+
+Theorem C14_history_reader_partial : forall ops secs,
+  observe (fold_left step ops (reader_file secs)) = observe (reader_file secs).
+Proof. exact history_reader. Qed.
+Print Assumptions C14_history_reader_partial.
+
+Theorem C14_history_created_partial : forall ops secs,
+  observe (fold_left step ops (created secs)) = observe (created secs).
+Proof. exact history_created. Qed.
+Print Assumptions C14_history_created_partial.
+
+(* files assembled with NewBatch / AddBatch only (no Create): pure when no batch is ADV *)
+Theorem C14_history_built_partial : forall ops secs, no_adv secs = true ->
+  observe (fold_left step ops (built secs)) = observe (built secs).
+Proof. exact history_built. Qed.
+Print Assumptions C14_history_built_partial.
+
+(* ... and not in general: NewBatchADV leaves Control nil and the first Validate / Write
+   installs one (known finding api:adv-batch-before-create) *)
+Theorem C14_history_built_adv_refuted :
+  exists secs ops, observe (fold_left step ops (built secs)) <> observe (built secs).
+Proof. exact purity_built_adv_refuted. Qed.
+Print Assumptions C14_history_built_adv_refuted.
 
 Theorem C14_inv_step : forall f o, inv f = true -> inv (step f o) = true.
 Proof. exact inv_step. Qed.
-
-(* the property: for every history over the operations, the observation is unchanged *)
-Theorem C14_history : forall ops f, inv f = true -> observe (fold_left step ops f) = observe f.
-Proof. exact history_observe. Qed.
-Print Assumptions C14_history.
-
-Theorem C14_history_built : forall ops secs, observe (fold_left step ops (built secs)) = observe (built secs).
-Proof. exact history_built. Qed.
-Print Assumptions C14_history_built.
 
 (* for all files, with nil pointers or not: a history ends in the file itself or in its
    normal form, and the operations are pure on exactly the files without a nil header /
@@ -71,7 +92,7 @@ Proof. exact install_idem. Qed.
 
 (* without the invariant the statement is false of the code as it stands: Validate
    installs a default header and control into a batch that has none *)
-Theorem C14_without_inv_refuted :
-  exists f ops, inv f = false /\ observe (fold_left step ops f) <> observe f.
+Theorem C14_without_condition_refuted :
+  exists f ops, prefix_inv f = false /\ observe (fold_left step ops f) <> observe f.
 Proof. exact purity_without_inv_refuted. Qed.
-Print Assumptions C14_without_inv_refuted.
+Print Assumptions C14_without_condition_refuted.
